@@ -152,6 +152,16 @@ Proof.
       destruct (NM.find sid (se_stores e2)); cbn in S; [|contradiction]. destruct S as [_ [mm [Ha _]]]. eauto.
 Qed.
 
+Lemma env_sop_quiet_rel e1 e2 av hs so : env_rel e1 e2 -> se_ideal e1 = false -> se_ideal e2 = true ->
+  env_rel (env_sop_quiet e1 av hs so) (env_sop_quiet e2 av hs so).
+Proof.
+  intros H I1 I2. unfold env_sop_quiet. destruct (env_sop_rel e1 e2 av hs so H I1 I2) as [X1 X2].
+  destruct (env_sop e1 av hs so) as [a1 o1]. destruct (env_sop e2 av hs so) as [a2 o2]. cbn [fst snd] in *.
+  destruct o1; destruct o2; cbn in X1; try discriminate; try assumption; try contradiction.
+  - inversion X1; subst. destruct r0; try assumption. apply env_rel_cx; [assumption|]. cbn. apply (ER_stuck _ _ X2).
+  - inversion X1; subst. destruct o0; try assumption. apply env_rel_cx; [assumption|]. cbn. apply (ER_stuck _ _ X2).
+Qed.
+
 (* ------------------------------------------------------------------ *)
 (* worlds *)
 
@@ -198,6 +208,12 @@ Proof.
     destruct (ms_sop m av ent so (se_cx e)) as [[ms1 out] c1]. reflexivity. }
   destruct so; cbn [sop_handle]; try (destruct (pv_get hs (N.of_nat h)); [apply Hgo|reflexivity]); try apply Hgo.
   cbn [fst]. apply ideal_register.
+Qed.
+
+Lemma ideal_sop_quiet e av hs so : se_ideal (env_sop_quiet e av hs so) = se_ideal e.
+Proof.
+  unfold env_sop_quiet. pose proof (ideal_sop e av hs so) as X. destruct (env_sop e av hs so) as [e' out]. cbn [fst] in X.
+  destruct out; try exact X; [destruct r|destruct o]; exact X.
 Qed.
 
 Lemma SW_life_upd w1 w2 s : SW w1 w2 -> SW (with_life w1 s) (with_life w2 s).
@@ -255,7 +271,7 @@ Theorem sstep_core_pair w1 w2 o cs : SW w1 w2 ->
   wout_sim (snd (sstep_core w1 o cs)) (snd (sstep_core w2 o cs)) /\ SW (fst (sstep_core w1 o cs)) (fst (sstep_core w2 o cs)).
 Proof.
   intros H. pose proof H as [L Hs Hl Ok E I1 I2].
-  destruct o as [k|k|n| |n|built k|k|h|hs|h| | |h|h| |h| |so| | ]; cbn [sstep_core].
+  destruct o as [k|k|n| |n|built k|k|h|hs|h| | |h|h| |h| |so| |lsid lh lv|lsid ll|lsid lh|prog|qso| ]; cbn [sstep_core].
   - destruct (s_create_pair false w1 w2 (hd_choice cs) H) as [E1 E2].
     destruct (s_create false w1 (hd_choice cs)) as [a1 e1]. destruct (s_create false w2 (hd_choice cs)) as [a2 e2].
     cbn [fst snd] in *. subst e2. split; [reflexivity|]. apply s_insert_comps_pair. assumption.
@@ -305,6 +321,12 @@ Proof.
     destruct (env_sop (s_env w1) _ _ so) as [e1 o1]. destruct (env_sop (s_env w2) _ _ so) as [e2 o2]. cbn [fst snd] in *.
     split; [assumption|]. apply SW_env_upd; auto; congruence.
   - cbn [fst snd]. split; [reflexivity|]. apply SW_env_upd; auto. apply env_drop_world_rel. assumption.
+  - rewrite Hs. cbn [fst snd]. split; [apply wout_sim_refl|assumption].
+  - rewrite Hs. cbn [fst snd]. split; [apply wout_sim_refl|assumption].
+  - rewrite Hs. cbn [fst snd]. split; [apply wout_sim_refl|assumption].
+  - cbn [fst snd]. split; [cbn; reflexivity|assumption].
+  - rewrite L, Hs. cbn [fst snd]. split; [cbn; reflexivity|].
+    apply SW_env_upd; auto; [apply env_sop_quiet_rel; assumption | |]; rewrite ideal_sop_quiet; assumption.
   - cbn [fst snd]. split; [reflexivity|assumption].
 Qed.
 
